@@ -27,13 +27,20 @@ def ins {α} (idx : α → Option Nat) (x : α) : List α → List α
 def isort {α} (idx : α → Option Nat) (l : List α) : List α :=
   (l.foldl (fun acc x => ins idx x acc) []).reverse
 
-/-- `order[CanonicalMIMEHeaderKey(key)] = i` for the LAST i carrying that key. -/
+/-- The form in which keys are compared (`canonicalKey` of the repaired sort.go,
+fixes/C16-2-pseudo-order-case.patch): `textproto.CanonicalMIMEHeaderKey`, except that pseudo
+header names (":path"), which that function leaves untouched because ':' is not a token byte,
+are lower-cased — both order lists are documented as case-insensitive. -/
+def canonicalKey (k : Bytes) : Bytes :=
+  if k.head? == some 58 then lower k else canonicalMIMEHeaderKey k
+
+/-- `order[canonicalKey(key)] = i` for the LAST i carrying that key. -/
 def lastIndex (order : List Bytes) (k : Bytes) : Option Nat :=
-  let ck := canonicalMIMEHeaderKey k
+  let ck := canonicalKey k
   let rec go (l : List Bytes) (i : Nat) (acc : Option Nat) : Option Nat :=
     match l with
     | [] => acc
-    | o :: os => go os (i + 1) (if canonicalMIMEHeaderKey o == ck then some i else acc)
+    | o :: os => go os (i + 1) (if canonicalKey o == ck then some i else acc)
   go order 0 none
 
 structure KV where
